@@ -966,27 +966,27 @@ theorem call_ro {op : Op} (h : (step env s op).2 = s) (k : Option Val → State 
   cases hh : step env s op with
   | mk o s1 => rw [hh] at h; simp only at h; rw [h]
 
-theorem step_readAll_spell {p : Str} {a : FsPath} (hk : keyOf env s p = some a) (hs : Stable env s a) :
-    step env s (.readAll (renderP a)) = step env s (.readAll p) := by
-  rw [step_readAll_key hk, step_readAll_key hs]
+theorem step_read_spell {p : Str} {a : FsPath} (hk : keyOf env s p = some a) (hs : Stable env s a) :
+    step env s (.read (renderP a)) = step env s (.read p) := by
+  rw [step_read_key hk, step_read_key hs]
 
-/-- the text `read_all` returns, if it returns one -/
-def textOf (env : Env) (s : State) (p : Str) : Option Str :=
-  match (step env s (.readAll p)).1 with
-  | .ok (.str x) => some x
+/-- the bytes `read` + `read_to_end` return, if `read` opens the file -/
+def bytesOf (env : Env) (s : State) (p : Str) : Option Bytes :=
+  match (step env s (.read p)).1 with
+  | .ok (.bytes x) => some x
   | _ => none
 
 /-- what `assert_vfs_copyfile!` decides once the source is an existing regular file: `copy` is
     performed; it passes iff the copy succeeded and afterwards both paths read back as the same
-    TEXT and the destination is a regular file -/
+    BYTES and the destination is a regular file -/
 theorem run_copyfile {src dst : Str} {a b : FsPath} (hk1 : keyOf env s src = some a)
     (hs1 : Stable env s a) (hk2 : keyOf env s dst = some b) (hs2 : Stable env s b)
     (hsrc : eAt s a (fun e => e.file && !e.link) = true) :
     (runMacro env s (.copyfile src dst)).2 = (step env s (.copy src dst)).2 ∧
     ((runMacro env s (.copyfile src dst)).1 = .pass ↔
       ((step env s (.copy src dst)).1.isOk = true ∧
-       (∃ x, textOf env (step env s (.copy src dst)).2 src = some x ∧
-             textOf env (step env s (.copy src dst)).2 dst = some x) ∧
+       (∃ x, bytesOf env (step env s (.copy src dst)).2 src = some x ∧
+             bytesOf env (step env s (.copy src dst)).2 dst = some x) ∧
        eAt (step env s (.copy src dst)).2 b (fun e => e.file && !e.link) = true)) := by
   have hex : eAt s a (fun _ => true) = true := by
     unfold eAt at hsrc ⊢
@@ -1006,17 +1006,17 @@ theorem run_copyfile {src dst : Str} {a b : FsPath} (hk1 : keyOf env s src = som
       Bool.not_true, Bool.false_eq_true, if_false, call_of ((step_copy_spell hk1 hs1 hk2 hs2).trans hr)]
     cases o with
     | ok v =>
-      simp only [contOf, call_ro (step_readAll_state _), step_readAll_spell hk1' hs1',
-        step_readAll_spell hk2' hs2', textOf, Outcome.isOk, true_and]
-      cases h1 : (step env s' (.readAll src)).1 with
+      simp only [contOf, call_ro (step_read_state _), step_read_spell hk1' hs1',
+        step_read_spell hk2' hs2', bytesOf, Outcome.isOk, true_and]
+      cases h1 : (step env s' (.read src)).1 with
       | ok v1 =>
         cases v1
-        case str x =>
-          simp only [contOf, call_ro (step_readAll_state _), step_readAll_spell hk2' hs2']
-          cases h2 : (step env s' (.readAll dst)).1 with
+        case bytes x =>
+          simp only [contOf, call_ro (step_read_state _), step_read_spell hk2' hs2']
+          cases h2 : (step env s' (.read dst)).1 with
           | ok v2 =>
             cases v2
-            case str y =>
+            case bytes y =>
               by_cases hxy : x = y
               · subst hxy
                 simp only [contOf, ne_eq, not_true_eq_false, if_false, boolK_isFile, eTest_stable hs2']
